@@ -3,6 +3,7 @@
 package newrelic
 
 import (
+	"math"
 	"fmt"
 	"strconv"
 	"strings"
@@ -108,9 +109,10 @@ func vTrOp(t []string) string {
 	case "new":
 		vTr[s] = NewTxnTraceHeap(vNat(t, 3))
 	case "add":
-		vTr[s].AddTxnTrace(&TxnTrace{DurationMillis: float64(vNat(t, 3)), GUID: vStr(t, 4)})
+		// durations are given in tenths of a millisecond: traces that differ by less than a millisecond must still be ordered
+		vTr[s].AddTxnTrace(&TxnTrace{DurationMillis: float64(vNat(t, 3)) / 10, GUID: vStr(t, 4)})
 	case "keeper":
-		if vTr[s].IsKeeper(&TxnTrace{DurationMillis: float64(vNat(t, 3)), GUID: vStr(t, 4)}) {
+		if vTr[s].IsKeeper(&TxnTrace{DurationMillis: float64(vNat(t, 3)) / 10, GUID: vStr(t, 4)}) {
 			return "1"
 		}
 		return "0"
@@ -124,7 +126,7 @@ func vTrOp(t []string) string {
 		if i > 0 {
 			b.WriteByte(' ')
 		}
-		fmt.Fprintf(&b, "%d:%s", int64(e.DurationMillis), e.GUID)
+		fmt.Fprintf(&b, "%d:%s", int64(math.Round(e.DurationMillis*10)), e.GUID)
 	}
 	b.WriteByte(']')
 	return b.String()
